@@ -224,8 +224,9 @@ def check_payload(p, rsp, payload, contexts, order0):
         back = rsp.RspHandler.rsp_unpack(wire.decode("ascii"))
     except Exception as e:  # noqa
         back = e
+    efeat = "escaped-char" if any(c in ESCAPED for c in payload) else feat
     if back != payload:
-        p.violation("F/framing/payload-wrong/" + feat, "rsp_unpack(rsp_pack(%r)) = %r, expected the original payload" % (payload, back), w, order=order0)
+        p.violation("F/framing/payload-wrong/" + efeat, "rsp_unpack(rsp_pack(%r)) = %r, expected the original payload" % (payload, back), w, order=order0)
     # receiver side, every context
     for (pn, pre), (sn, suf) in contexts:
         p.add()
@@ -239,7 +240,7 @@ def check_payload(p, rsp, payload, contexts, order0):
         sym = judge_stream(log, expect)
         p.outcome(("F", feat, pn, sn, sym, len(log)))
         if sym:
-            p.violation("F/framing/%s/%s" % (sym, feat),
+            p.violation("F/framing/%s/%s" % (sym, efeat if sym == "payload-wrong" else feat),
                         "stream %r: handler delivered %r and answered %r; expected messages %r and one '+' per packet"
                         % (stream, [e[1] for e in log if e[0] == "msg"], b"".join(e[1] for e in log if e[0] == "tx"),
                            [q for g, q in expect if g]), wc, order=order0)
@@ -265,7 +266,7 @@ def check_payload(p, rsp, payload, contexts, order0):
         sym = judge_stream(log, [(False, None), (True, payload)])
         p.outcome(("Fc", feat, pos >= n - 2, sym))
         if sym:
-            p.violation("F/framing/%s/%s" % (sym, feat),
+            p.violation("F/framing/%s/%s" % (sym, efeat if sym == "payload-wrong" else feat),
                         "corrupt packet %r then intact %r: handler delivered %r and answered %r; expected only %r delivered and '-+'"
                         % (bad, wire, [e[1] for e in log if e[0] == "msg"], b"".join(e[1] for e in log if e[0] == "tx"), payload),
                         wc, order=order0)
@@ -379,7 +380,7 @@ class Harness:
             if cfg["mode"] == "seq":
                 progs = [[(i, user_payload(i)) for i in range(len(self.script))]]
             else:
-                progs = [[(0, user_payload(0))], [(1, user_payload(1))]]
+                progs = [[(i, user_payload(i))] for i in range(max(2, len(self.script)))]
             for ui, prog in enumerate(progs):
                 s.spawn("user%d" % ui, self._rsp_user("user%d" % ui, prog, r, sendpkt))
         else:
@@ -486,9 +487,13 @@ def judge(ex, cfg):
             raise HarnessError("harness thread %s died: %r" % (n, threads[n][1]))
     # ---- (4) no protocol thread terminates with an exception
     dead = [n for n, (fin, exc, svc, label) in threads.items() if exc is not None]
-    for n in dead:
+    for n in list(dead):
         exc = threads[n][1]
         role = "rx" if n == "rx" else "stop-handler"
+        if role == "stop-handler" and type(exc).__name__ == "Empty" and any(e[0] == "timeout" and e[1] == n for e in ev):
+            # the peer stayed silent towards the stop handler's own command: the timeout propagates (not a protocol-layer claim)
+            uncl.append("stop_handler_ended_by_timeout")
+            continue
         out.append((exc_key("A/thread-dies/" + role, exc),
                     "%s thread terminated with %s: %r (incoming bytes are no longer processed)" % (role, type(exc).__name__, exc)))
     # ---- (5) no deadlock / livelock
@@ -643,27 +648,34 @@ MAX_POINTS = 4000         # horizon per execution (a correct run of 3 sends need
 CFG_CPU_SECONDS = 1500    # CPU watchdog per configuration (harness safety net only)
 
 
-def configs(bound, line_bound=None):
+# total bound (script deviations + preemptions) per (harness, mode, script length); absent = not explored in that tier
+TIERS = {
+    "quick": {("rsp", "seq", 1): 2, ("rsp", "seq", 2): 2, ("rsp", "seq", 3): 2,
+              ("rsp", "par", 1): 2, ("rsp", "par", 2): 2,
+              ("client", "seq", 1): 2, ("client", "seq", 2): 1},
+    "thorough": {("rsp", "seq", 1): 3, ("rsp", "seq", 2): 3, ("rsp", "seq", 3): 3,
+                 ("rsp", "par", 1): 3, ("rsp", "par", 2): 3, ("rsp", "par", 3): 2,
+                 ("client", "seq", 1): 3, ("client", "seq", 2): 2, ("client", "seq", 3): 1},
+}
+LINE_TIERS = {"quick": {}, "thorough": {("rsp", "seq", 1): 2, ("rsp", "seq", 2): 1, ("rsp", "par", 1): 2, ("rsp", "par", 2): 1}}
+
+
+def configs(tier):
     out = []
-    for harness, syms in (("rsp", RSP_SYMS), ("client", CLIENT_SYMS)):
-        for L in (1, 2, 3):
+    for lines, table in ((False, TIERS[tier]), (True, LINE_TIERS[tier])):
+        for (harness, mode, L), bound in sorted(table.items()):
+            syms = RSP_SYMS if harness == "rsp" else CLIENT_SYMS
             for script in itertools.product(syms, repeat=L):
                 c = script_cost(script)
                 if c > bound:
                     continue
                 if harness == "rsp":
-                    modes = ["seq", "par"] if L <= 2 else ["seq"]
                     rs = [1, 2, 3] if any(x in NEEDS_RETRIES for x in script) else [2]
                 else:
-                    modes = ["seq"]
                     rs = [10]           # GdbDebugDriver._send_command uses the default budget
-                for mode in modes:
-                    for r in rs:
-                        out.append({"harness": harness, "mode": mode, "script": list(script), "retries": r,
-                                    "pb": bound - c, "lines": False})
-                        if line_bound is not None and harness == "rsp" and L <= 2 and c <= line_bound and (mode == "seq" or L == 1):
-                            out.append({"harness": harness, "mode": mode, "script": list(script), "retries": r,
-                                        "pb": line_bound - c, "lines": True})
+                for r in rs:
+                    out.append({"harness": harness, "mode": mode, "script": list(script), "retries": r,
+                                "pb": bound - c, "lines": lines})
     out.sort(key=lambda c: (script_cost(c["script"]), len(c["script"]), c["lines"], c["harness"] != "rsp", c["mode"], c["script"], c["retries"]))
     return list(enumerate(out))
 
@@ -744,9 +756,9 @@ def run(ctx):
     f_evals = ctx.evaluations
     ctx.sample({"F": "payload \"a#\" -> rsp_pack -> fed as '-' + packet + '$OK#9a'", "expect": "messages ['a#', 'OK'], answers '++'"})
     # ---- A
-    bound = 2 if quick else 3
-    cfgs = configs(bound, None if quick else 1)
-    ctx.note("A_bound", "preemptions + environment deviations <= %d%s" % (bound, "" if quick else "; line-granular points at <= 1"))
+    cfgs = configs(ctx.tier)
+    ctx.note("A_bounds", {"%s/%s/len%d%s" % (k + ("",)): v for k, v in TIERS[ctx.tier].items()})
+    ctx.note("A_bounds_line_granular", {"%s/%s/len%d%s" % (k + ("",)): v for k, v in LINE_TIERS[ctx.tier].items()})
     ctx.note("A_configurations", len(cfgs))
     ctx.pmap(a_worker, cfgs, nshards=min(len(cfgs), 256))
     if ctx.counters.get("A_configs_cpu_capped"):
